@@ -689,8 +689,15 @@ var _ rpc.Resources
 
 // Unsend: the subscription is no longer counted as sent to the client; every sent resource it
 // references loses exactly one "sent by a parent" count.
+// The snapshot a subscription hands to its client is the state at the subscription's version.
+//@ define predSnapCurrent(s *Subscription) bool = (s.typ == rescache.TypeModel && s.model != nil ==> ufInt_snapver(s.model) == s.version) &&
+//@     (s.typ == rescache.TypeCollection && s.collection != nil ==> ufInt_snapver(s.collection) == s.version)
+
 //@ func (*Subscription).Unsend
 //@   requires s != nil
+// Open finding F12: a subscription reset to "not sent" is handed to the client again with the
+// snapshot taken when it was loaded, although its version has moved on with every update event.
+//@   ensures[C01] s.err == nil ==> predSnapCurrent(s)
 //@   assumes forall a string :: has(s.refs, a) ==> s.refs[a] != nil && s.refs[a].sub != nil
 //@   assumes forall a, b string :: has(s.refs, a) && has(s.refs, b) && a != b ==> s.refs[a].sub != s.refs[b].sub
 //@   ensures[C02] s.state == stateReady && s.indirectsent == 0
@@ -756,6 +763,7 @@ var _ rpc.Resources
 //@   ensures[C02,C03] callcount("doneLoading") == old(callcount("doneLoading")) ==> s.model == old(s.resourceSub.model) && s.version == old(s.resourceSub.version) &&
 //@       s.queueFlag == old(s.queueFlag) | queueReasonLoading &&
 //@       (forall k string :: has(s.model.Values, k) && s.model.Values[k].Type == codec.ValueTypeReference ==> has(s.refs, s.model.Values[k].RID))
+//@   ensures[C01] callcount("doneLoading") == old(callcount("doneLoading")) ==> ufInt_snapver(s.model) == s.version
 //@   safety[C15]
 //@   loop 1 invariant callcount("doneLoading") == old(callcount("doneLoading")) && m == old(s.resourceSub.model) && version == old(s.resourceSub.version)
 //@   loop 1 invariant s.queueFlag == old(s.queueFlag) | queueReasonLoading && predSubsOK(s.c.(*wsConn)) && predRefsOK() && predOwnRefs(s)
